@@ -7,6 +7,7 @@ package conc
 import (
 	"encoding/json"
 	"fmt"
+	"reflect"
 	"strings"
 
 	"github.com/AsaiYusuke/jsonpath"
@@ -36,6 +37,20 @@ type Scenario struct {
 	Fns     []FnSpec
 	Docs    []string // JSON text
 	Threads [][]Op
+	// Fresh: the documents are built in Go for every execution with leaf types the process has
+	// never seen before ([n]int for a fresh n), so that anything built lazily per Go type is
+	// first touched concurrently. Docs then only gives the number of documents; the run-alone
+	// outcomes are computed on the same documents after the execution.
+	Fresh bool
+}
+
+var freshCounter = 1000
+
+// freshDoc returns {"a":{"b":[n]int{}}} for an n not used before in this process.
+func freshDoc() interface{} {
+	freshCounter++
+	leaf := reflect.New(reflect.ArrayOf(freshCounter, reflect.TypeOf(0))).Elem().Interface()
+	return map[string]interface{}{"a": map[string]interface{}{"b": leaf}}
 }
 
 // Corpus: one entry per node kind, comparator, logical operator and function kind; D1/D2 flip
@@ -233,7 +248,11 @@ func (sc *Scenario) Build() *World {
 		w.Fns = append(w.Fns, f)
 	}
 	for _, d := range sc.Docs {
-		w.Docs = append(w.Docs, Decode(d))
+		if sc.Fresh {
+			w.Docs = append(w.Docs, freshDoc())
+		} else {
+			w.Docs = append(w.Docs, Decode(d))
+		}
 	}
 	w.Outcomes = make([][]string, len(sc.Threads))
 	for i := range w.Outcomes {
@@ -258,6 +277,9 @@ func (w *World) Body(t int) func() {
 // Expected computes the run-alone outcome of every operation on fresh objects.
 func (sc *Scenario) Expected() [][]string {
 	out := make([][]string, len(sc.Threads))
+	if sc.Fresh {
+		return out // computed after the execution, on the execution's own documents (ExpectedAfter)
+	}
 	for t, ops := range sc.Threads {
 		for _, op := range ops {
 			if op.Parse {
@@ -274,9 +296,36 @@ func (sc *Scenario) Expected() [][]string {
 	return out
 }
 
+// ExpectedAfter computes the run-alone outcomes of a Fresh scenario on the documents of this
+// execution (freshly parsed functions; the documents are read-only).
+func (w *World) ExpectedAfter() [][]string {
+	out := make([][]string, len(w.Sc.Threads))
+	for t, ops := range w.Sc.Threads {
+		for _, op := range ops {
+			f, err := jsonpath.Parse(w.Sc.Fns[op.Fn].Path, Config(w.Sc.Fns[op.Fn].Cfg)...)
+			if err != nil {
+				panic(err)
+			}
+			out[t] = append(out[t], CallOutcome(f, w.Docs[op.Doc]))
+		}
+	}
+	return out
+}
+
 // Check compares the outcomes of an execution with the run-alone outcomes and verifies that
 // shared documents are unchanged and shared functions still behave like freshly parsed ones.
 func (w *World) Check(expected [][]string) (ok bool, detail string) {
+	if w.Sc.Fresh {
+		expected = w.ExpectedAfter()
+		for t := range expected {
+			for k := range expected[t] {
+				if w.Outcomes[t][k] != expected[t][k] {
+					return false, fmt.Sprintf("thread %d op %d (%s) returned %s; run alone on the same document it returns %s", t, k, w.Sc.OpString(w.Sc.Threads[t][k]), w.Outcomes[t][k], expected[t][k])
+				}
+			}
+		}
+		return true, ""
+	}
 	for t := range expected {
 		for k := range expected[t] {
 			if w.Outcomes[t][k] != expected[t][k] {
@@ -381,6 +430,11 @@ func Scenarios(tier string) []Scenario {
 			Threads: [][]Op{{call(0, 0)}, {call(1, 0)}}})
 	}
 	out = append(out, generated(tier)...)
+	// S8: non-JSON leaves of Go types the process has not seen before, every kind of step applied to them
+	for _, path := range []string{`$.a.b.c`, `$.a.b[0]`, `$.a.b.*`, `$.a.b[?(@.x)]`, `$.a.b..x`, `$.a.b['x','y']`, `$.a[?(@.b.f() == 1)]`} {
+		out = append(out, Scenario{Name: "S8 fresh Go types " + path, Fns: []FnSpec{{path, 1}}, Docs: []string{"", ""}, Fresh: true,
+			Threads: [][]Op{{call(0, 0)}, {call(0, 1)}, {call(0, 0)}}})
+	}
 	// S6: two operations per thread
 	for _, ci := range []int{14, 17, 27, 28, 29, 32, 38, 41, 44, 49} {
 		c := Corpus[ci]
@@ -438,6 +492,7 @@ func generated(tier string) []Scenario {
 			continue
 		}
 		d1, d2, dOther, dFail := -1, -1, -1, -1
+		e1, e2, re1 := -1, -1, ""
 		r1 := ""
 		for di, d := range docs {
 			o := CallOutcome(f, gen.Clone(d))
@@ -452,7 +507,14 @@ func generated(tier string) []Scenario {
 			case !ok && dFail < 0:
 				dFail = di
 			}
-			if d1 >= 0 && d2 >= 0 {
+			if strings.HasPrefix(o, "ErrorTypeUnmatched") {
+				if e1 < 0 {
+					e1, re1 = di, o
+				} else if e2 < 0 && o != re1 {
+					e2 = di
+				}
+			}
+			if d1 >= 0 && d2 >= 0 && (e2 >= 0 || di > 400) {
 				break
 			}
 		}
@@ -469,6 +531,13 @@ func generated(tier string) []Scenario {
 			Name: "S7 shared " + text, Fns: []FnSpec{{text, 1}}, Docs: []string{texts[d1], texts[d2]},
 			Threads: [][]Op{{Op{Fn: 0, Doc: 0}}, {Op{Fn: 0, Doc: 1}}},
 		})
+		if e1 >= 0 && e2 >= 0 && len(p.Steps) <= 1 {
+			// both calls fail with a type error that names a different found type
+			out = append(out, Scenario{
+				Name: "S7e shared " + text + " (both fail)", Fns: []FnSpec{{text, 1}}, Docs: []string{texts[e1], texts[e2]},
+				Threads: [][]Op{{Op{Fn: 0, Doc: 0}}, {Op{Fn: 0, Doc: 1}}},
+			})
+		}
 	}
 	return out
 }
